@@ -3,8 +3,10 @@ use crate::report::Report;
 use crate::rng::Rng;
 
 pub mod c01;
+pub mod c02;
 pub mod c03;
 pub mod c04;
+pub mod c07;
 pub mod c09;
 pub mod c10;
 pub mod c18;
@@ -48,8 +50,10 @@ impl Ctx {
 pub async fn dispatch(prop: &str, ctx: &Ctx, rep: &mut Report) -> bool {
     match prop {
         "C01" => c01::run(ctx, rep).await,
+        "C02" => c02::run(ctx, rep).await,
         "C03" => c03::run(ctx, rep).await,
         "C04" => c04::run(ctx, rep).await,
+        "C07" => c07::run(ctx, rep).await,
         "C09" => c09::run(ctx, rep).await,
         "C10" => c10::run(ctx, rep).await,
         "C18" => c18::run(ctx, rep).await,
